@@ -1148,27 +1148,33 @@ package yqlib
 // recursive tree walkers is not claimed (it needs a tree-shape invariant the contracts do not carry).
 
 //@ pred exploded1(n) = n.Anchor == "" && (n.Kind != AliasNode || n.Alias == nil)
-//@ pred anchorsOnlyRemoved() = allnodes(m, implies(preexisting(m) && old(m.Anchor) == "", m.Anchor == ""))
+//@ pred anchorsOnlyRemoved() = allnodes(m, implies(preexisting(m) && old(m.Anchor) == "", m.Anchor == "")) && allnodes(m, implies(preexisting(m) && old(m.Kind) != AliasNode, m.Kind == old(m.Kind) && m.Value == old(m.Value) && m.Tag == old(m.Tag) && m.Style == old(m.Style))) && allnodes(m, implies(preexisting(m) && old(m.Kind) == SequenceNode, m.Content == old(m.Content))) && allnodes(m, implies(preexisting(m) && old(m.Alias) == nil, m.Alias == nil))
 
 //@ func explodeNode
 //@   props C13
 //@   nosafety
 //@   assume @alias-target-is-no-alias implies(node.Alias != nil, node.Alias.Kind != AliasNode)
-//@   assume @children-non-nil implies(node.Alias != nil, forall(i, 0, len(node.Alias.Content), node.Alias.Content[i] != nil))
+//@   assume @children-non-nil node != nil && forall(i, 0, len(node.Content), node.Content[i] != nil) && implies(node.Alias != nil, forall(i, 0, len(node.Alias.Content), node.Alias.Content[i] != nil))
+//@   assume @alias-targets-everywhere allnodes(m, implies(m.Alias != nil, m.Alias.Kind != AliasNode))
 //@   modifies anynode.Anchor, anynode.Kind, anynode.Style, anynode.Tag, anynode.Value, anynode.Alias, anynode.Content
 //@   ensures @no-anchor-left {C13} implies(result == nil, node.Anchor == "")
-//@   ensures @alias-becomes-its-target {C13} implies(old(node.Kind) == AliasNode && old(node.Alias) != nil, result == nil && node.Kind == old(node.Alias.Kind) && node.Kind != AliasNode && node.Value == old(node.Alias.Value) && node.Tag == old(node.Alias.Tag) && node.Style == old(node.Alias.Style) && node.Alias == nil && len(node.Content) == len(old(node.Content)) + len(old(node.Alias.Content)))
-//@   ensures @copied-content-exploded {C13} implies(result == nil && old(node.Kind) == AliasNode && old(node.Alias) != nil, forall(i, 0, len(node.Content), exploded1(node.Content[i])))
+//@   ensures @alias-becomes-its-target {C13} implies(old(node.Kind) == AliasNode && old(node.Alias) != nil && result == nil, node.Kind == old(node.Alias.Kind) && node.Kind != AliasNode && node.Value == old(node.Alias.Value) && node.Tag == old(node.Alias.Tag) && node.Style == old(node.Alias.Style) && node.Alias == nil)
+//@   ensures @alias-to-a-sequence-gets-its-elements {C13} implies(old(node.Kind) == AliasNode && old(node.Alias) != nil && result == nil && old(node.Alias.Kind) == SequenceNode, len(node.Content) == len(old(node.Content)) + len(old(node.Alias.Content)))
+//@   ensures @children-exploded {C13} implies(result == nil && old(node.Kind) == SequenceNode, node.Content == old(node.Content) && forall(i, 0, len(node.Content), exploded1(node.Content[i])))
+//@   ensures @copied-content-exploded {C13} implies(result == nil && old(node.Kind) == AliasNode && old(node.Alias) != nil && old(node.Alias.Kind) == SequenceNode, forall(i, 0, len(node.Content), exploded1(node.Content[i])))
 //@   ensures @scalars-untouched {C13} implies(old(node.Kind) == ScalarNode, result == nil && node.Kind == ScalarNode && node.Value == old(node.Value) && node.Tag == old(node.Tag) && node.Style == old(node.Style))
 //@   ensures @anchors-only-removed {C13} anchorsOnlyRemoved()
 //@   loop 1:
-//@     invariant node.Anchor == "" && anchorsOnlyRemoved()
+//@     invariant node.Anchor == "" && anchorsOnlyRemoved() && node.Kind == SequenceNode && node.Content == old(node.Content)
+//@     invariant @done-so-far-anchors forall(i, 0, rangeidx(), node.Content[i].Anchor == "")
+//@     invariant @done-so-far-aliases forall(i, 0, rangeidx(), node.Content[i].Kind != AliasNode || node.Content[i].Alias == nil)
 //@   loop 3:
 //@     invariant node.Anchor == "" && anchorsOnlyRemoved()
 
 //@ func reconstructAliasedMap
 //@   props C13
 //@   nosafety
+//@   requires node != nil && node.Kind == MappingNode
 //@   assume @children-non-nil node != nil && forall(i, 0, len(node.Content), node.Content[i] != nil) && len(node.Content) % 2 == 0
 //@   modifies anynode.Anchor, anynode.Kind, anynode.Style, anynode.Tag, anynode.Value, anynode.Alias, anynode.Content
 //@   ensures @anchors-only-removed {C13} anchorsOnlyRemoved()
